@@ -5,8 +5,26 @@ import re
 from lib import common, cstage, rstage, tsgen, gen
 from lib.vals import *
 
-THEOREMS = ["C15_aliases_declared_once", "C15_describe_restores_active", "C15_children_complete", "C15_nonvacuous"]
-IMPORTS = "From Beff Require Import Model.Cases."
+THEOREMS = ["C15_aliases_declared_once", "C15_describe_restores_active", "C15_children_complete", "C15_nonvacuous",
+            "C15_describe_terminates_on_recursive_types", "C15_counting_terminates", "C15_printing_terminates",
+            "C15_termination_nonvacuous"]
+IMPORTS = "From Beff Require Import Model.Cases Proofs.C15Term."
+
+
+def term_expr(env, rt):
+    """the hypotheses of C15_describe_terminates_on_recursive_types for this case: reachable names in depth-first post-order (the
+    only reference to a name printed in place is the edge it was discovered through, so post-order numbers are ranks)"""
+    from checks.c13 import refs_in
+    table = dict(env); order = []; seen = set()
+    def visit(n):
+        if n in seen or n not in table: return
+        seen.add(n)
+        for m in refs_in(table[n]): visit(m)
+        order.append(n)
+    for m in refs_in(rt): visit(m)
+    ranks = coq_list("(%s, %d%%nat)" % (coq_str(n), i) for i, n in enumerate(order))
+    rl = coq_list(coq_str(n) for n in order)
+    return "term_check %s %s %s %s %d%%nat 40%%nat" % (env_coq(env), rt_coq(rt), ranks, rl, len(order) + 1)
 PROTO_NAMES = ["valueOf", "toString", "constructor", "hasOwnProperty", "__proto__"]
 DOCS = ["doc", "a */ b", "two\nlines", "x\n\ny */"]
 
@@ -251,7 +269,10 @@ def check(run):
         jobs.append({"id": i, "env": env_json(c["env"]), "rt": rt_json(c["rt"]), "names": ["T"], "hide": hide, "ops": [{"op": "describe"}]})
         exprs.append('run_describe %s "T" %s %s' % (env_coq(c["env"]), "true" if hide else "false", rt_coq(c["rt"])))
     js = common.run_driver(jobs)
-    cq = common.run_coq_cases(IMPORTS, exprs, tag="C15")
+    texprs = [term_expr(c["env"], c["rt"]) for c in cases]
+    cq = common.run_coq_cases(IMPORTS, exprs + texprs, tag="C15")
+    tres = cq[len(exprs):]
+    cq = cq[:len(exprs)]
     n_alias = n_doc = 0
     for i, c in enumerate(cases):
         out = js[i][0]
@@ -369,6 +390,11 @@ def check(run):
                                                                     first_structural_difference=repr(d)[:600])))
 
     cov["evaluations"] = len(cases) + len(meta)
+    outside = [i for i, x in enumerate(tres) if x != "1"]
+    cov["termination_premise"] = {"theorem": "C15_describe_terminates_on_recursive_types", "cases": len(tres),
+                                  "hypotheses hold (term_check evaluated in Coq with post-order ranks)": len(tres) - len(outside),
+                                  "first cases outside": [{"env": repr(cases[i]["env"]), "rt": repr(cases[i]["rt"]), "term_check": tres[i]}
+                                                          for i in outside[:3]]}
     cov["distinct_nontrivial"] = n_alias + judged
     cov["rule"] = ("A: random/forced validator trees (every container as the carrier of recursion, names Object.prototype defines, "
                    "non-identifier keys, single- and multi-line descriptions) -> describe() text, implementation vs model, and on the "
